@@ -17,7 +17,10 @@ RULE = ("(1) pairs of Magnitudes from a value grid (either sign, arrays, zero wh
         "table units (every dimension class), to the reciprocal dimension, number->rad and to an unrelated unit; (3) the C06 "
         "operation generator with errors on both operands, including a op a with the SAME object on both sides (also on "
         "Magnitude level) and constructors whose units cancel with a factor != 1; judged per clause on the error in base "
-        "dimensions and by 'relative uncertainty = that of the same operation on the bare magnitudes'. non-trivial = at least one operand carries an error and (a negative "
+        "dimensions and by 'relative uncertainty = that of the same operation on the bare magnitudes'; (4) histories: each "
+        "Magnitude/Quantity is created once and reused in 3-7 operations (arrays and scalars, every operator, a op a), model "
+        "and oracle always get the creation-time state, operands re-read at the end; conversions include zero readings and "
+        "targets given as BaseUnits/dict/text/Unit().x/reference Quantity of magnitude != 1. non-trivial = at least one operand carries an error and (a negative "
         "value/factor/exponent, an array, or different units) ; distinct = canonical JSON of the input")
 ASSUMPTIONS = [
     "operand errors are non-negative (abse >= 0, rele >= 0) as the property presupposes; magnitudes are floats or float "
@@ -26,6 +29,10 @@ ASSUMPTIONS = [
     "without that the bound is false for any sensible propagation rule (see C08_first_order_div_needs_interval)",
     "** with an error attached is judged for non-zero values (the code divides by |value|; 0 gives nan) and fractional "
     "exponents for positive values",
+    "a result that is NaN/inf (or a ZeroDivision/Overflow exception) is a violation when the model's result is an ordinary "
+    "number well inside the float range, and not judged otherwise (overflow is an acknowledged float effect)",
+    "the error of a product/quotient is a difference of two numbers of the size of the value: lower bounds are judged up "
+    "to 1e-12 x |value| (only matters for relative errors below 1e-7)",
     "only linear conversions are covered by the conversion clause (reciprocal / temperature / logarithmic conversions carry "
     "the error over unchanged; the property does not speak about them)",
     "floats compared with relative tolerance 1e-9; np.abs/np.max/np.full_like taken as the real functions; for arrays "
@@ -36,8 +43,10 @@ EXPLANATION = ("theorems over any linearly ordered field: non-negativity of ever
                "classes on every run")
 
 
-def check_rule(ctx, name, case, e_imp, spec, what):
-    """the property's clause on the real result; returns True if a violation was reported"""
+def check_rule(ctx, name, case, e_imp, spec, what, vscale=0.0):
+    """the property's clause on the real result; returns True if a violation was reported.
+    `vscale` = size of the result value: the code obtains the error of a product/quotient as a difference of two
+    numbers of that size, so it is only defined up to a few ulp of the value (matters when error/value < 1e-7)."""
     def viol(kind, text):
         ctx.violation("%s:%s" % (kind, name), "%s: %s (%s)" % (name, text, what), {"case": case, "impl_error": e_imp, "spec": spec})
         return True
@@ -62,7 +71,7 @@ def check_rule(ctx, name, case, e_imp, spec, what):
             return viol("rule", "error lost")
         ei = e_imp if isinstance(e_imp, list) else [e_imp] * (len(b) if isinstance(b, list) else 1)
         bb = b if isinstance(b, list) else [b] * len(ei)
-        if any(x < y * (1 - 1e-9) for x, y in zip(ei, bb)):
+        if any(x < y * (1 - 1e-9) - 1e-12 * vscale for x, y in zip(ei, bb)):
             return viol("firstorder", "absolute error %s is below the first-order uncertainty %s" % (e_imp, b))
     return False
 
@@ -155,6 +164,69 @@ MAG_CORPUS = [
 ]
 
 
+def apply_mag_op(c, l, r, req):
+    """the operation on the real objects; non-finite results are kept and marked"""
+    try:
+        if c["op"] == "add":
+            res = l + r
+        elif c["op"] == "sub":
+            res = l - r
+        elif c["op"] == "mul":
+            res = l * r
+        elif c["op"] == "div":
+            res = l / r
+        elif c["op"] == "neg":
+            res = -l
+        else:
+            n, d = c["p"]
+            x = n / d if c["float"] else n
+            req["p"] = U.float_to_frac(x)
+            res = l ** x
+        return U.mark_nonfinite({"v": U.fl(res.value), "e": U.fl(res.error)})
+    except (ZeroDivisionError, OverflowError):
+        return "nonfinite"
+    except Exception as ex:
+        return "err:%s" % type(ex).__name__
+
+
+def judge_mag(ctx, c, req, imp, ans, stream="mag"):
+    op = c["op"]
+    ctx.count(stream + "." + op)
+    what = "Magnitude %s" % json.dumps(c)
+    if "ok" not in ans:
+        ctx.disagreement(stream, c, "impl %s driver %s" % (imp, ans))
+        return
+    mod, spec = ans["ok"]["model"], ans["ok"]["spec"]
+    if U.is_nonfinite(imp):
+        if U.finite(mod["v"]) and U.finite(mod["e"]) and U.mag(mod["v"]) < 1e250 and U.mag(mod["e"]) < 1e250:
+            ctx.violation("notanumber:Magnitude." + op, "Magnitude.%s gives %s where value %s error %s are ordinary numbers (%s)" %
+                          (op, imp if imp == "nonfinite" else {"v": imp["v"], "e": imp["e"]}, mod["v"], mod["e"], what),
+                          {"case": c, "impl": imp})
+        else:
+            ctx.count(stream + ".nonfinite")
+        return
+    if not isinstance(imp, dict):
+        ctx.disagreement(stream, c, "impl %s driver %s" % (imp, ans))
+        return
+    le = req["l"].get("e")
+    re_ = req.get("r", {}).get("e")
+    neg = any(U.mag(x) and (min(x) if isinstance(x, list) else x) < 0
+              for x in [req["l"].get("v", req["l"].get("num")), req.get("r", {}).get("v", req.get("r", {}).get("num"))] if x is not None) \
+        or (op == "pow" and c["p"][0] < 0)
+    ctx.case(json.dumps(c, sort_keys=True), (le is not None or re_ is not None) and
+             (neg or isinstance(imp["v"], list)), {"magnitude_case": c, "error": imp["e"]})
+    if le is not None or re_ is not None:
+        ctx.count(stream + ".with-error")
+    if c.get("same"):
+        ctx.count(stream + ".same-object")
+    ctx.count(stream + ".rule." + spec.get("rule", "?"))
+    check_rule(ctx, "Magnitude." + op, c, imp["e"], spec, what, U.mag(imp["v"]))
+    if not U.close(imp["v"], mod["v"]):
+        ctx.disagreement(stream, c, "value impl %s model %s" % (imp["v"], mod["v"]))
+    elif not U.close(imp["e"], mod["e"], U.mag(imp["v"]) * 1e-3, 1e-7):
+        ctx.disagreement(stream, c, "error impl %s model %s" % (imp["e"], mod["e"]))
+
+
 def mag_stream(ctx, count):
     cases = [json.loads(json.dumps(c)) for c in MAG_CORPUS] + \
         [gen_same_case(ctx.rng) if ctx.rng.random() < 0.08 else gen_mag_case(ctx.rng) for _ in range(count)]
@@ -165,33 +237,9 @@ def mag_stream(ctx, count):
         req = {"k": "mag", "op": c["op"], "l": mag_state(l)}
         if r is not None:
             req["r"] = mag_state(r)
-        # the constructor itself (relative error -> absolute error) is a case of its own
-        try:
-            if c["op"] == "add":
-                res = l + r
-            elif c["op"] == "sub":
-                res = l - r
-            elif c["op"] == "mul":
-                res = l * r
-            elif c["op"] == "div":
-                res = l / r
-            elif c["op"] == "neg":
-                res = -l
-            else:
-                n, d = c["p"]
-                x = n / d if c["float"] else n
-                req["p"] = U.float_to_frac(x)
-                res = l ** x
-            imp = {"v": U.fl(res.value), "e": U.fl(res.error)}
-            if not (U.finite(imp["v"]) and U.finite(imp["e"])):
-                imp = "nonfinite"
-        except (ZeroDivisionError, OverflowError):
-            imp = "nonfinite"
-        except Exception as ex:
-            imp = "err:%s" % type(ex).__name__
+        imps.append(apply_mag_op(c, l, r, req))
         reqs.append(req)
-        imps.append(imp)
-    # constructor cases
+    # the constructor itself (relative error -> absolute error) is a case of its own
     ctor = []
     for c in cases:
         for side in ("l", "r"):
@@ -206,33 +254,7 @@ def mag_stream(ctx, count):
             creqs.append({"k": "mag", "op": "new", "v": m["v"], "abse": m["abse"]})
     answers = U.ask_many(ctx, reqs + creqs)
     for c, req, imp, ans in zip(cases, reqs, imps, answers):
-        op = c["op"]
-        ctx.count("mag." + op)
-        if imp == "nonfinite":
-            ctx.count("mag.nonfinite")
-            continue
-        what = "Magnitude %s" % json.dumps(c)
-        if "ok" not in ans or not isinstance(imp, dict):
-            ctx.disagreement("mag", c, "impl %s driver %s" % (imp, ans))
-            continue
-        le = req["l"].get("e")
-        re_ = req.get("r", {}).get("e")
-        neg = any(U.mag(x) and (min(x) if isinstance(x, list) else x) < 0
-                  for x in [req["l"].get("v", req["l"].get("num")), req.get("r", {}).get("v", req.get("r", {}).get("num"))] if x is not None) \
-            or (op == "pow" and c["p"][0] < 0)
-        ctx.case(json.dumps(c, sort_keys=True), (le is not None or re_ is not None) and
-                 (neg or isinstance(imp["v"], list)), {"magnitude_case": c, "error": imp["e"]})
-        if le is not None or re_ is not None:
-            ctx.count("mag.with-error")
-        if c.get("same"):
-            ctx.count("mag.same-object")
-        mod, spec = ans["ok"]["model"], ans["ok"]["spec"]
-        ctx.count("mag.rule." + spec.get("rule", "?"))
-        check_rule(ctx, "Magnitude." + op, c, imp["e"], spec, what)
-        if not U.close(imp["v"], mod["v"]):
-            ctx.disagreement("mag", c, "value impl %s model %s" % (imp["v"], mod["v"]))
-        elif not U.close(imp["e"], mod["e"], U.mag(imp["v"]) * 1e-3, 1e-7):
-            ctx.disagreement("mag", c, "error impl %s model %s" % (imp["e"], mod["e"]))
+        judge_mag(ctx, c, req, imp, ans)
     for m, ans in zip(ctor, answers[len(reqs):]):
         ctx.count("mag.ctor")
         real = mk_mag(m)
@@ -264,8 +286,23 @@ def gen_to_case(rng):
         lu, tu = [], [(("", "rad") if rng.random() < 0.7 else ("m", "rad"), rng.choice([(1, 1), (1, 1), (2, 2), (2, 1), (-1, 1)]))]
     else:
         tu = U.gen_units(rng)
-    v = U.gen_value(rng, nonzero=True)
+    v = U.gen_value(rng) if k < 0.75 else U.gen_value(rng, nonzero=True)    # a zero reading with an uncertainty is ordinary
+    if rng.random() < 0.08:
+        v = 0.0
     c = {"op": "to", "lv": v, "lu": lu, "tu": tu, "le": U.gen_err(rng, v, p=0.85), "mode": "dict"}
+    # how the target is handed over: BaseUnits / dict / text / a reference Quantity (magnitude != 1) / Unit().x
+    f = rng.random()
+    if f < 0.3:
+        c["tform"] = "quantity"
+        c["tm"] = rng.choice([2.0, 50.0, -4.0, 0.5, 1.0, -0.25, 1e3])
+        if rng.random() < 0.2:
+            c["te"] = abs(c["tm"]) * 0.1
+    elif f < 0.4 and len(tu) == 1 and tu[0][1] == (1, 1):
+        c["tform"] = "unit"
+    elif f < 0.55:
+        c["tform"] = "dict"
+    elif f < 0.65:
+        c["tform"] = "text"
     return c
 
 
@@ -279,6 +316,15 @@ TO_CORPUS = [
     {"op": "to", "lv": 2.0, "lu": U.U(("", "s", 1, 1)), "tu": U.U(("", "Hz", 1, 1)), "le": 0.1},
     {"op": "to", "lv": 2.0, "lu": U.U(("", "s", 1, 1)), "tu": U.U(("", "m", 1, 1)), "le": 0.1},
     {"op": "to", "lv": 2.0, "lu": U.U(("", "m", 1, 1)), "tu": U.U(("", "ft", 1, 1))},
+    # a reading of exactly zero, scalar and inside an array
+    {"op": "to", "lv": 0.0, "lu": U.U(("k", "m", 1, 1)), "tu": U.U(("", "m", 1, 1)), "le": 0.2},
+    {"op": "to", "lv": [0.0, 1.0, -2.0], "lu": U.U(("", "h", 1, 1)), "tu": U.U(("", "min", 1, 1)), "le": 0.1, "tform": "text"},
+    # targets that are quantities: the value in multiples of a reference
+    {"op": "to", "lv": 10.0, "lu": U.U(("k", "m", 1, 1)), "tu": U.U(("", "m", 1, 1)), "le": 0.5, "tform": "quantity", "tm": 50.0},
+    {"op": "to", "lv": [1.0, 3.0], "lu": U.U(("", "J", 1, 1)), "tu": U.U(("", "erg", 1, 1)), "le": 0.02, "tform": "quantity", "tm": -4.0},
+    {"op": "to", "lv": 3.0, "lu": U.U(("k", "m", 1, 1)), "tu": U.U(("", "m", 1, 1)), "le": 0.1, "tform": "unit"},
+    {"op": "to", "lv": 3.0, "lu": U.U(("k", "g", 1, 1)), "tu": U.U(("", "lb", 1, 1)), "le": 0.1, "tform": "quantity", "tm": 2.0, "te": 0.2},
+    {"op": "to", "lv": 3.0, "lu": U.U(("k", "g", 1, 1)), "tu": U.U(("", "g", 1, 1)), "le": 0.1, "tform": "dict"},
 ]
 
 
@@ -292,17 +338,30 @@ def to_stream(ctx, count):
     answers = U.ask_many(ctx, reqs)
     for c, req, imp, ans in zip(cases, reqs, imps, answers):
         ctx.count("to")
-        if imp == "nonfinite":
-            ctx.count("to.nonfinite")
-            continue
+        ctx.count("to.target." + c.get("tform", "baseunits"))
         if "ok" not in ans:
             ctx.disagreement("to", c, str(ans))
             continue
         mod, spec = ans["ok"]["model"], ans["ok"]["spec"]
+        tgt = U.text_of(c["tu"])
+        if c.get("tform") == "quantity":
+            tgt = "Quantity(%r%s, '%s')" % (c["tm"], "" if c.get("te") is None else "±%g" % c["te"], tgt)
+        elif c.get("tform") == "unit":
+            tgt = "Unit().%s" % tgt
+        what = "Quantity(%s).to(%s)" % (U.describe(c), tgt)
+        if U.is_nonfinite(imp):
+            if U.model_is_sane(mod, req["env"]):
+                ctx.violation("notanumber:convert", "%s gives %s where value %s error %s are ordinary numbers" %
+                              (what, imp if imp == "nonfinite" else {"v": imp["v"], "e": imp["e"]}, mod["v"], mod["e"]),
+                              {"case": c, "impl": imp})
+            else:
+                ctx.count("to.nonfinite")
+            continue
         if U.out_of_range(imp, mod, spec if isinstance(spec, dict) else None, req["env"]):
             ctx.count("to.out-of-float-range")
             continue
-        what = "Quantity(%s).to('%s')" % (U.describe(c), U.text_of(c["tu"]))
+        if c["lv"] == 0 or (isinstance(c["lv"], list) and 0 in c["lv"]):
+            ctx.count("to.zero-reading")
         linear = isinstance(spec, dict)
         ctx.count("to.linear" if linear else ("to.refused" if imp == "err" else "to.other-rule"))
         ctx.case(json.dumps(c, sort_keys=True, default=str), c.get("le") is not None and linear and
@@ -312,8 +371,11 @@ def to_stream(ctx, count):
             if imp == "err":
                 ctx.violation("convert:refused", "%s refused although the dimensions agree" % what, {"case": c})
             else:
-                rule = {"rule": "exact"} if spec["e"] is None else {"rule": "eq", "bound": spec["e"]}
-                if not check_rule(ctx, "convert", c, imp["e"], rule, what) and spec["e"] is not None:
+                rule = spec["err"] if "err" in spec else \
+                    ({"rule": "exact"} if spec["e"] is None else {"rule": "eq", "bound": spec["e"]})
+                vs = req["l"]["v"] if isinstance(req["l"]["v"], list) else [req["l"]["v"]]
+                if not check_rule(ctx, "convert", c, imp["e"], rule, what) and rule.get("rule") == "eq" \
+                        and 0 not in vs and imp["e"] is not None:
                     # the relative uncertainty is unchanged
                     r0 = rel(req["l"]["e"], req["l"]["v"])
                     r1 = rel(imp["e"], imp["v"])
@@ -379,34 +441,47 @@ def qty_stream(ctx, count):
         imps.append(imp)
     answers = U.ask_many(ctx, [{k: v for k, v in r.items() if k != "p_intended"} for r in reqs])
     for c, req, imp, ans in zip(cases, reqs, imps, answers):
-        ctx.count("qty." + c["op"])
-        if imp == "nonfinite" or "ok" not in ans:
-            if "ok" not in ans:
-                ctx.disagreement("qty", c, str(ans))
-            continue
-        mod = ans["ok"]["model"]
-        if U.out_of_range(imp, mod, None, req["env"]):
-            ctx.count("qty.out-of-float-range")
-            continue
-        has_err = c.get("le") is not None or c.get("re") is not None
-        ctx.case(json.dumps(c, sort_keys=True, default=str), has_err and U.nontrivial(c),
-                 {"quantity_case": U.describe(c), "op": c["op"], "abse": None if imp == "err" else imp["e"]})
-        spec = ans["ok"]["spec"]
-        if imp != "err":
-            name = "Quantity." + c["op"].split("_")[0]
-            what = "Quantity %s %s" % (c["op"], U.describe(c))
-            rule = {"rule": "nonneg"} if has_err else {"rule": "exact"}
-            bad = check_rule(ctx, name, c, imp["e"], rule, what)
-            if not bad and isinstance(spec, dict) and "err" in spec:
-                # the clause of the property on the error re-expressed in base dimensions
-                ctx.count("qty.rule." + spec["err"].get("rule", "?"))
-                bad = check_rule(ctx, name, c, U.base_err_of(imp, req["env"]), spec["err"],
-                                 what + " [absolute error in base dimensions]")
-            if not bad and c["op"] != "add" and c["op"] != "sub":
-                fold_keeps_relative(ctx, name, c, req, imp, what)
-        d = U.compare_model(imp, mod, U.scale_for(c, req))
-        if d:
-            ctx.disagreement("qty", c, d)
+        judge_qty(ctx, c, req, imp, ans)
+
+
+def judge_qty(ctx, c, req, imp, ans, stream="qty"):
+    ctx.count(stream + "." + c["op"])
+    if "ok" not in ans:
+        ctx.disagreement(stream, c, str(ans))
+        return
+    mod = ans["ok"]["model"]
+    name = "Quantity." + c["op"].split("_")[0]
+    what = "Quantity %s %s" % (c["op"], U.describe(c))
+    if c.get("history"):
+        what += " after " + "; ".join(c["history"])
+    if U.is_nonfinite(imp):
+        if U.model_is_sane(mod, req["env"]):
+            ctx.violation("notanumber:" + name, "%s gives %s where value %s error %s are ordinary numbers" %
+                          (what, imp if imp == "nonfinite" else {"v": imp["v"], "e": imp["e"]}, mod["v"], mod["e"]),
+                          {"case": c, "impl": imp})
+        else:
+            ctx.count(stream + ".nonfinite")
+        return
+    if U.out_of_range(imp, mod, None, req["env"]):
+        ctx.count(stream + ".out-of-float-range")
+        return
+    has_err = c.get("le") is not None or c.get("re") is not None
+    ctx.case(json.dumps(c, sort_keys=True, default=str), has_err and U.nontrivial(c),
+             {"quantity_case": U.describe(c), "op": c["op"], "abse": None if imp == "err" else imp["e"]})
+    spec = ans["ok"]["spec"]
+    if imp != "err":
+        rule = {"rule": "nonneg"} if has_err else {"rule": "exact"}
+        bad = check_rule(ctx, name, c, imp["e"], rule, what)
+        if not bad and isinstance(spec, dict) and "err" in spec:
+            # the clause of the property on the error re-expressed in base dimensions
+            ctx.count(stream + ".rule." + spec["err"].get("rule", "?"))
+            bad = check_rule(ctx, name, c, U.base_err_of(imp, req["env"]), spec["err"],
+                             what + " [absolute error in base dimensions]", U.mag(U.base_of(imp, req["env"])))
+        if not bad and c["op"] != "add" and c["op"] != "sub":
+            fold_keeps_relative(ctx, name, c, req, imp, what)
+    d = U.compare_model(imp, mod, U.scale_for(c, req))
+    if d:
+        ctx.disagreement(stream, c, d)
 
 
 def fold_keeps_relative(ctx, name, c, req, imp, what):
@@ -460,11 +535,172 @@ def fold_keeps_relative(ctx, name, c, req, imp, what):
                       {"case": c, "impl": imp, "bare": {"v": mv, "e": me}})
 
 
+# ---------------------------------------------------------------- stream 4: histories that reuse the same objects
+NZ = [1.0, -1.0, 2.0, 0.5, -3.0, 3.5, 12.0, 7.0, 10.0, 20.0, -0.25]
+
+
+def same_state(a, b):
+    return U.close(a.get("v"), b.get("v")) and U.close(a.get("e"), b.get("e")) and \
+        [(u, U.qfrac(n, d)) for u, n, d in a.get("u", [])] == [(u, U.qfrac(n, d)) for u, n, d in b.get("u", [])] and \
+        (a.get("e") is None) == (b.get("e") is None)
+
+
+def gen_pool_values(rng, n):
+    arr = rng.random() < 0.75
+    length = rng.choice([2, 3])
+    out = []
+    for i in range(n):
+        if arr and (i == 0 or rng.random() < 0.6):
+            v = [rng.choice(NZ) for _ in range(length)]
+        else:
+            v = rng.choice(NZ)
+        e = None if rng.random() < 0.15 else (min(abs(x) for x in v) if isinstance(v, list) else abs(v)) * rng.choice([0.05, 0.1, 0.2])
+        out.append((v, e))
+    return out
+
+
+def gen_steps(rng, n, quantity):
+    steps = []
+    for _ in range(rng.randint(3, 6)):
+        op = rng.choice(["add", "sub", "sub", "sub", "mul", "div", "neg", "pow", "add", "mul"])
+        i, j = rng.randrange(n), rng.randrange(n)
+        num = None
+        if op in ("add", "sub", "mul", "div") and rng.random() < 0.15 and (not quantity or op in ("mul", "div")):
+            num = rng.choice([2.0, -3.0, 0.5])
+        steps.append((op, i, j, num, rng.choice([2, -1, 3])))
+    return steps
+
+
+def step_text(op, i, j, num, p):
+    sym = {"add": "+", "sub": "-", "mul": "*", "div": "/"}
+    if op == "neg":
+        return "-x%d" % i
+    if op == "pow":
+        return "x%d**%d" % (i, p)
+    return "x%d %s %s" % (i, sym[op], ("x%d" % j) if num is None else repr(num))
+
+
+# (op, i, j, plain number or None, exponent): array-valued and scalar operands used again and again
+HISTORY_CORPUS = [
+    {"quantity": False, "vals": [([10.0, 20.0], 0.5), ([1.0, 2.0], 0.1), (3.0, 0.3)],
+     "steps": [("sub", 0, 1, None, 2), ("sub", 0, 1, None, 2), ("mul", 0, 0, 2.0, 2), ("add", 0, 1, None, 2),
+               ("div", 0, 2, None, 2), ("sub", 2, 0, None, 2), ("add", 1, 1, None, 2)]},
+    {"quantity": True, "vals": [([10.0, 20.0], 0.5), ([100.0, 200.0], 10.0), (3.0, 0.3)],
+     "units": [U.U(("", "m", 1, 1)), U.U(("c", "m", 1, 1)), U.U(("", "m", 1, 1))],
+     "steps": [("sub", 0, 1, None, 2), ("sub", 0, 1, None, 2), ("add", 0, 2, None, 2), ("mul", 0, 1, None, 2),
+               ("sub", 0, 2, None, 2), ("div", 1, 0, None, 2), ("pow", 0, 0, None, 2)]},
+    {"quantity": False, "vals": [(4.0, 0.01), (1.0, 0.005), ([2.0, -3.0], None)],
+     "steps": [("sub", 0, 1, None, 2), ("add", 0, 1, None, 2), ("sub", 2, 0, None, 2), ("sub", 2, 0, None, 2),
+               ("mul", 1, 2, None, 2), ("neg", 2, 0, None, 2)]},
+]
+
+
+def history_stream(ctx, count):
+    """Every operand object is created ONCE and then used in several operations. Model and specification always get the
+    state the operands were created with: an operation that changes its operand makes a later result (and the operand's
+    own abse) drift away from the propagation rules."""
+    from scinumtools.units import Magnitude
+    pending = []     # (judge, case, req, imp)
+    finals = []      # (kind, description, snapshot, object, history)
+    for h in range(count + len(HISTORY_CORPUS)):
+        quantity = h % 2 == 1
+        n = 3
+        preset = HISTORY_CORPUS[h] if h < len(HISTORY_CORPUS) else None
+        if preset:
+            quantity, vals, steps = preset["quantity"], preset["vals"], preset["steps"]
+        else:
+            vals = gen_pool_values(ctx.rng, n)
+            steps = gen_steps(ctx.rng, n, quantity)
+        if not quantity:
+            specs = [{"v": v} if e is None else {"v": v, "abse": e} for v, e in vals]
+            objs = [mk_mag(sp) for sp in specs]
+            snaps = [mag_state(o) for o in objs]
+            done = []
+            for op, i, j, num, p in steps:
+                c = {"op": op, "l": specs[i], "pool": specs, "history": list(done)}
+                req = {"k": "mag", "op": op, "l": snaps[i]}
+                l, r = objs[i], None
+                if op in ("add", "sub", "mul", "div"):
+                    if num is not None:
+                        c["r"], req["r"], r = {"num": num}, {"num": num}, num
+                    else:
+                        c["r"], req["r"], r = specs[j], snaps[j], objs[j]
+                        if i == j:
+                            c["same"] = True
+                elif op == "pow":
+                    c["p"], c["float"] = [p, 1], False
+                imp = apply_mag_op(c, l, r, req)
+                done.append(step_text(op, i, j, num, p))
+                pending.append(("mag", c, req, imp))
+            for k in range(n):
+                finals.append(("Magnitude", "x%d = Magnitude(%s)" % (k, json.dumps(specs[k])), snaps[k], mag_state(objs[k]),
+                               done, {"pool": specs}))
+        else:
+            if preset:
+                us = preset["units"]
+            else:
+                lu = U.gen_units(ctx.rng, 2)
+                us = [lu] + [(U.variant(ctx.rng, lu) or lu) if ctx.rng.random() < 0.7 else lu for _ in range(n - 1)]
+            try:
+                objs = [U.build("dict", v, e, u)[0] for (v, e), u in zip(vals, us)]
+            except Exception:
+                continue
+            snaps = [U.state(o) for o in objs]
+            env = U.env_rows([x[0] for sn in snaps for x in sn["u"]])
+            done = []
+            for op, i, j, num, p in steps:
+                c = {"op": op if op != "pow" else "pow_int", "lv": vals[i][0], "lu": us[i], "le": vals[i][1],
+                     "history": list(done), "pool": [[v, e, U.text_of(u)] for (v, e), u in zip(vals, us)]}
+                req = {"k": "qty", "op": op, "l": snaps[i], "env": env}
+                l, r = objs[i], None
+                if op in ("add", "sub", "mul", "div"):
+                    if num is not None:
+                        c.update({"rv": num, "ru": None, "plain": True})
+                        req["r"], r = {"num": num}, num
+                    else:
+                        c.update({"rv": vals[j][0], "ru": us[j], "re": vals[j][1]})
+                        req["r"], r = snaps[j], objs[j]
+                        if i == j:
+                            c["same"] = True
+                elif op == "pow":
+                    c["p"] = [p, 1]
+                    req["p"] = [p, 1]
+                try:
+                    res = {"add": lambda: l + r, "sub": lambda: l - r, "mul": lambda: l * r, "div": lambda: l / r,
+                           "neg": lambda: -l, "pow": lambda: l ** p}[op]()
+                    imp = U.mark_nonfinite(U.observe(res))
+                except (ZeroDivisionError, OverflowError, FloatingPointError):
+                    imp = "nonfinite"
+                except Exception:
+                    imp = "err"
+                done.append(step_text(op, i, j, num, p))
+                pending.append(("qty", c, req, imp))
+            for k in range(n):
+                finals.append(("Quantity", "x%d = Quantity(%r%s, '%s')" % (
+                    k, vals[k][0], "" if vals[k][1] is None else ", abse=%g" % vals[k][1], U.text_of(us[k])),
+                    snaps[k], U.state(objs[k]), done, {"pool": [[v, e, U.text_of(u)] for (v, e), u in zip(vals, us)]}))
+    answers = U.ask_many(ctx, [r for _, _, r, _ in pending])
+    for (kind, c, req, imp), ans in zip(pending, answers):
+        if kind == "mag":
+            judge_mag(ctx, c, req, imp, ans, stream="history.mag")
+        else:
+            judge_qty(ctx, c, req, imp, ans, stream="history.qty")
+    for kind, text, snap, now, done, extra in finals:
+        ctx.count("history.operands-rechecked")
+        if not same_state(snap, now):
+            ctx.violation("history:operand-uncertainty-changed:" + kind,
+                          "%s carries value %s abse %s after the operations [%s]; it was created with value %s abse %s, so "
+                          "every later result propagates a wrong uncertainty" %
+                          (text, now.get("v"), now.get("e"), "; ".join(done), snap.get("v"), snap.get("e")),
+                          dict(extra, steps=done, created=snap, now=now))
+
+
 def correspond(ctx: Ctx):
     th = ctx.tier == "thorough"
     mag_stream(ctx, 12000 if th else 2500)
     to_stream(ctx, 6000 if th else 1200)
     qty_stream(ctx, 5000 if th else 1000)
+    history_stream(ctx, 1500 if th else 300)
 
 
 def replay(ctx, payload):
